@@ -8,7 +8,7 @@ use crate::opt::{run_script, OptCfg, WorsePolicy};
 use crate::props::c07::count_worse_trials;
 
 pub const TITLE: &str = "The temperature follows the requested annealing schedule";
-pub const RULE: &str = "cases = kt_start log-uniform in [1e-3,10] (or 0), one cooling factor per loop f in [0.3,1] given either as kt_ratio = 1-f or as kt_finish = kt_start f^L, L in 1..12 inner loops of 1000 or 4000 steps (thorough: 8000/20000), steps = L*inner plus an optional remainder. Synthetic state with 8 parameters, max_step 1e-3 (no clamping); in loop i every proposal is worse by d_i = ln2 * kt_start f^(i-1), so a correct schedule accepts about half of them in every loop and a wrong one drifts to 0 or 1. Per loop the acceptance frequency gives a 6-sigma interval for kT_i = -d_i / ln p. Checked: first and second half of each loop agree (constant kT within a loop); kT_1 = kt_start; ratio path: kT_i = kt_start (1-ratio)^(i-1) for all i; finish path: one factor g explains all loops and puts the last loop within one cooling step of kt_finish (kt_finish*g <= kT_L <= kt_finish/g); kt_start = 0: no worse move accepted in any loop. Non-trivial = L >= 3; distinct by hash of the case.";
+pub const RULE: &str = "cases = kt_start log-uniform in [1e-3,10] (or 0), one cooling factor per loop f in [0.3,1] given either as kt_ratio = 1-f or as kt_finish = kt_start f^L, L in 1..12 inner loops of 1000 or 4000 steps (thorough: 8000/20000), steps = L*inner plus an optional remainder; for L <= 5 optionally with a convergence threshold that every loop meets (it cannot end such a run and must not alter the schedule). Synthetic state with 8 parameters, max_step 1e-3 (no clamping); in loop i every proposal is worse by d_i = ln2 * kt_start f^(i-1), so a correct schedule accepts about half of them in every loop and a wrong one drifts to 0 or 1. Per loop the acceptance frequency gives a 6-sigma interval for kT_i = -d_i / ln p. Checked: first and second half of each loop agree (constant kT within a loop); kT_1 = kt_start; ratio path: kT_i = kt_start (1-ratio)^(i-1) for all i; finish path: one factor g explains all loops and puts the last loop within one cooling step of kt_finish (kt_finish*g <= kT_L <= kt_finish/g); kt_start = 0: no worse move accepted in any loop. Non-trivial = L >= 3; distinct by hash of the case.";
 
 pub fn assumptions() -> Vec<&'static str> {
     vec![
@@ -26,6 +26,10 @@ pub struct SchedCase {
     pub big_inner: bool,
     pub remainder: u64,
     pub seed: u64,
+    /// a convergence threshold so large that every loop counts as converged; used only with <= 5 loops, where it
+    /// can never end the run (more than five consecutive converged loops are needed) and must not change the schedule
+    #[serde(default)]
+    pub with_convergence: bool,
 }
 
 fn strat(_: &Ctx) -> BoxedStrategy<SchedCase> {
@@ -37,8 +41,9 @@ fn strat(_: &Ctx) -> BoxedStrategy<SchedCase> {
         any::<bool>(),
         prop_oneof![Just(0u64), 1u64..900],
         any::<u64>(),
+        prop_oneof![2 => Just(false), 1 => Just(true)],
     )
-        .prop_map(|(kt_start, f, by_ratio, loops, big_inner, remainder, seed)| SchedCase { kt_start, f, by_ratio, loops, big_inner, remainder, seed })
+        .prop_map(|(kt_start, f, by_ratio, loops, big_inner, remainder, seed, with_convergence)| SchedCase { kt_start, f, by_ratio, loops, big_inner, remainder, seed, with_convergence })
         .boxed()
 }
 
@@ -69,7 +74,8 @@ fn oracle(c: &SchedCase, rec: &Rec, ctx: &Ctx) -> Result<(), String> {
     let l = c.loops;
     let steps = l * inner + c.remainder.min(inner - 1);
     let (kt_ratio, kt_finish) = if c.by_ratio { (Some(1. - c.f), None) } else { (None, Some(c.kt_start * c.f.powi(l as i32))) };
-    let cfg = OptCfg { steps, inner, kt_start: c.kt_start, kt_finish, kt_ratio, max_step: 1e-3, convergence: None, seed: c.seed };
+    let convergence = if c.with_convergence && l <= 5 { Some(1e9) } else { None };
+    let cfg = OptCfg { steps, inner, kt_start: c.kt_start, kt_finish, kt_ratio, max_step: 1e-3, convergence, seed: c.seed };
     let zero = c.kt_start == 0.;
     let d: Vec<f64> = (0..l).map(|i| if zero { 1e-3 } else { std::f64::consts::LN_2 * c.kt_start * c.f.powi(i as i32) }).collect();
     let policy = WorsePolicy { d_per_loop: d.clone(), inner, proposals: cfg.proposals(), base: 0. };
